@@ -87,7 +87,7 @@ func gen(t *rapid.T) Prog {
 	p.Rounds = rapid.IntRange(2, 8).Draw(t, "rounds")
 	p.Takers = rapid.IntRange(0, 3).Draw(t, "takers")
 	p.StoredLoad = rapid.Bool().Draw(t, "stored")
-	p.GatedClose = rapid.SampledFrom([]string{"", "", "merger:ev7", "persister:persist.snp:begin", "persister:load.seg:end", "merger:persist.seg:end", "intro-persist-window", "intro-persist-window"}).Draw(t, "gatedClose")
+	p.GatedClose = rapid.SampledFrom([]string{"", "", "merger:ev7", "persister:persist.snp:begin", "persister:load.seg:end", "merger:persist.seg:end", "intro-persist-window", "intro-persist-window", "intro-merge-window", "intro-merge-window"}).Draw(t, "gatedClose")
 	if strings.HasPrefix(p.GatedClose, "persister") || p.GatedClose == "intro-persist-window" {
 		p.Conf.Unsafe = true
 	}
@@ -174,7 +174,14 @@ func runProg(p Prog, res *ChildResult) *vlib.Failure {
 	dir := os.Getenv("C15_DIR")
 	gates := vlib.NewGates()
 	introWindow := p.GatedClose == "intro-persist-window"
-	if introWindow {
+	mergeIntroWindow := p.GatedClose == "intro-merge-window"
+	if mergeIntroWindow {
+		// Close while the introducer is applying a MERGE introduction: the merger is parked with its
+		// task ready (event 7) during the program; after all callers returned the introducer is
+		// held inside introduceMerge (at a wrapped segment's Count), the merger is released, then
+		// Close is issued
+		gates.Hold("merger:ev7")
+	} else if introWindow {
 		// Close while the introducer is applying a persist introduction: the persister is parked
 		// after loading the persisted copy, then released while the introducer is held inside
 		// introducePersist (at the wrapped segment's Count), then Close is issued
@@ -188,7 +195,7 @@ func runProg(p Prog, res *ChildResult) *vlib.Failure {
 	bgSteps := 0
 	var bgMu sync.Mutex
 	rr, f := vlib.StartRecordedRun(p.Conf, dir, nil, func(ic index.Config, d *vlib.RecDir) index.Config {
-		ic = gates.Install(ic, d, introWindow)
+		ic = gates.Install(ic, d, introWindow || mergeIntroWindow)
 		inner := d.Gate
 		d.Gate = func(phase string, e *vlib.DirEvent) {
 			if phase == "end" && e.Op == "persist" {
@@ -316,7 +323,11 @@ func runProg(p Prog, res *ChildResult) *vlib.Failure {
 	done := make(chan struct{})
 	go func() { wg.Wait(); close(done) }()
 	close(start)
-	if p.GatedClose != "" && !introWindow {
+	if mergeIntroWindow {
+		if pk := gates.WaitParked("merger:ev7", 500*time.Millisecond); pk != nil {
+			res.GateParked = true
+		}
+	} else if p.GatedClose != "" && !introWindow {
 		if pk := gates.WaitParked(p.GatedClose, 500*time.Millisecond); pk != nil {
 			res.GateParked = true
 		}
@@ -347,6 +358,14 @@ func runProg(p Prog, res *ChildResult) *vlib.Failure {
 					res.GateParked = true
 				}
 			}
+		}
+	}
+	if mergeIntroWindow {
+		if pk := gates.WaitParked("merger:ev7", 200*time.Millisecond); pk != nil {
+			gates.Hold("introducer/merge:count")
+			gates.Unhold("merger:ev7")
+			gates.Release(pk)
+			res.GateParked = gates.WaitParked("introducer/merge:count", time.Second) != nil
 		}
 	}
 	closeDone := make(chan *vlib.Failure, 1)
